@@ -300,20 +300,21 @@ theorem equalverify_expansion_bookkeeping (cx : Btclib.Ctx) (sc : Bytes) (stack 
     says that every instruction Core's walk reads from the script is one of: a push of any of the four widths, OP_0,
     OP_1NEGATE, OP_1..OP_16, OP_NOP, OP_NOP1/4..10, the 46 OPERATIONS entries of `operations_refine_Core_partial`, OP_PICK,
     OP_ROLL, OP_CHECKLOCKTIMEVERIFY, OP_CHECKSEQUENCEVERIFY, OP_IF, OP_NOTIF, OP_ELSE, OP_ENDIF, OP_VERIF, OP_VERNOTIF,
-    OP_RESERVED, OP_VER, OP_RESERVED1/2 or a disabled op code.  For such a script, every initial stack within the limit,
+    OP_RESERVED, OP_VER, OP_RESERVED1/2, OP_EQUALVERIFY, OP_NUMEQUALVERIFY or a disabled op code.  For such a script, every initial stack within the limit,
     every flag set, transaction context and hash functions, the btclib-shaped interpreter (`_run_ops` as written: byte
     cursor, stack check at the top of the pass, sentinel condition stack, counts through the translated
     `script_op_count`) and Core's `EvalScript` reach the same verdict and the same final stack.  The simulation relation
     (`Sim.R`): stacks and altstacks equal, `condition_stack = vfExec ++ [True]`, op counts equal; Core's size check at
     the end of a step is btclib's check at the top of the next pass.
-    Not covered: OP_EQUALVERIFY / OP_NUMEQUALVERIFY at loop level (their expansion bookkeeping is
-    `equalverify_expansion_bookkeeping`), OP_CODESEPARATOR, the signature op codes, bytes 0xba..0xff. -/
+    OP_EQUALVERIFY and OP_NUMEQUALVERIFY are covered too: in an executing branch they take three passes of btclib's loop
+    (expansion re-fed into the byte stream, index and count wound back by two) against one step of Core's.
+    Not covered: OP_CODESEPARATOR, the signature op codes, bytes 0xba..0xff. -/
 theorem btclib_eval_refines_core_partial (cx : Btclib.Ctx) (script : Bytes) (stack : List Bytes)
     (hcov : Sim.covered script = true) (hsz : stack.length ≤ 1000) :
     Btclib.eval cx script stack = Sim.toOut (Core.evalWith (Refine.coreCx cx script) stack 0) :=
   Sim.eval_refines cx script stack hcov hsz
 
-example : Sim.covered [0x51, 0x63, 0x52, 0x93, 0x67, 0x00, 0x68, 0x02, 0xaa, 0xbb, 0x75, 0xb1, 0x7e] = true := by decide
+example : Sim.covered [0x51, 0x63, 0x52, 0x93, 0x67, 0x00, 0x68, 0x02, 0xaa, 0xbb, 0x75, 0xb1, 0x76, 0x88, 0x7e] = true := by decide
 example : Sim.covered [0x51, 0xac] = false := by decide
 
 example : (0x93 : Nat) ∈ Refine.covered ∧ (0x76 : Nat) ∈ Refine.covered := by decide
